@@ -226,7 +226,7 @@ var c07Bufs = []int{1, 7, 100, 4096, 50000}
 
 func TestC07(t *testing.T) {
 	rec := evid.For("C07")
-	rec.Rule = "rapid state machine over 2-6 simultaneously open connections (roles and compression modes drawn per connection) with scripted peers; every inbound payload byte is a function of (connection, message, offset). Actions: peer sends a message (un/compressed, 1-3 fragments); read n bytes; read to EOF; read AGAIN from a reader that already returned EOF; abandon a message and ask for a new reader; protocol violation mid-message; local Close/CloseNow; peer Close frame between the fragments of a compressed message; reader context expiry mid-message; wsjson.Read; open a fresh connection (reusing the pools); write messages (checked on the wire by the reference decoder). Oracle: every Read result is the next bytes of that connection's own stream or an error, no byte is lost, a read after EOF yields no data, no panic. Non-trivial: a connection released pooled reader state (EOF, error, close) and a different connection subsequently started reading a compressed message. distinct = hash(step sequence)."
+	rec.Rule = "rapid state machine over 2-6 simultaneously open connections (roles and compression modes drawn per connection) with scripted peers; every inbound payload byte is a function of (connection, message, offset). Actions: peer sends a message (un/compressed, 1-3 fragments); read n bytes; read to EOF; read AGAIN from a reader that already returned EOF; abandon a message and ask for a new reader; protocol violation mid-message; local Close/CloseNow; peer Close frame between the fragments of a compressed message; reader context expiry mid-message; wsjson.Read; wsjson.Read of a document cut short (close, violation, context expiry, read limit); open a fresh connection (reusing the pools); write messages (checked on the wire by the reference decoder). Oracle: every Read result is the next bytes of that connection's own stream or an error, no byte is lost, a read after EOF yields no data, no panic. Non-trivial: a connection released pooled reader state (EOF, error, close) and a different connection subsequently started reading a compressed message. distinct = hash(step sequence)."
 	rapid.Check(t, func(rt *rapid.T) {
 		rapid.SyncTest(rt, func(rt *rapid.T) {
 			e := newEnv(rt)
@@ -399,6 +399,50 @@ func TestC07(t *testing.T) {
 						}
 						f.alive = false
 					}
+				},
+				"wsjsonCut": func(rt *rapid.T) {
+					// wsjson.Read of a document that is cut short (the peer closes, violates the
+					// protocol or stalls until the context expires after the first fragment): the
+					// pooled buffer it was collecting in goes back to the pool, and whatever the
+					// next wsjson.Read on ANOTHER connection decodes must be that connection's own
+					c := s.pick(rt, func(c *c07Conn) bool { return c.alive && c.cur == nil && len(c.pending) == 0 })
+					if c == nil {
+						return
+					}
+					kind := rapid.SampledFrom([]string{"close", "violation", "ctx-expiry", "read-limit"}).Draw(rt, "cutKind")
+					doc := fmt.Sprintf(`{"conn":%d,"seq":%d,"pad":"%s"}`, c.id, c.seq, bytes.Repeat([]byte{byte('a' + c.id)}, 2000))
+					c.seq++
+					fr := c.frames([]byte(doc), rapid.Bool().Draw(rt, "cutCompressed"), 3, true)
+					ctx := context.Background()
+					var cancel context.CancelFunc = func() {}
+					if kind == "read-limit" {
+						c.lc.C.SetReadLimit(100)
+						for _, f := range fr {
+							c.lc.Peer.send(f)
+						}
+					} else {
+						c.lc.Peer.send(fr[0])
+					}
+					switch kind {
+					case "close":
+						c.lc.Peer.send(ref.Frame{Fin: true, Opcode: ref.OpClose, Payload: ref.ClosePayload(1000, "")})
+					case "violation":
+						c.lc.Peer.send(ref.Frame{Fin: true, Opcode: 0x5, Payload: []byte("reserved")})
+					case "ctx-expiry":
+						ctx, cancel = context.WithTimeout(ctx, time.Second)
+					}
+					step("wsjsonCut(c%d,%s)", c.id, kind)
+					var v map[string]any
+					var err error
+					s.call(rt, "wsjson.Read of a document that is cut short", func() {
+						defer cancel()
+						err = wsjson.Read(ctx, c.lc.C, &v)
+					})
+					if err == nil {
+						rt.Fatalf("C07: conn %d: wsjson.Read of a document cut short by %s returned nil\nsteps: %v", c.id, kind, s.steps)
+					}
+					c.alive = false
+					s.release(c.id, "wsjson-cut-"+kind)
 				},
 				"wsjson": func(rt *rapid.T) {
 					c := s.pick(rt, func(c *c07Conn) bool { return c.alive && c.cur == nil && len(c.pending) == 0 })
